@@ -130,13 +130,13 @@ def run(tier, seed, replay=None):
     mo, _ = emcmp.run_runner(runner, 'mgr', text)
     capi, cpp, model = norm_H_lines(emcmp.parse(co)), norm_H_lines(emcmp.parse(io)), norm_H_lines(emcmp.parse(mo))
     nrm = {'R': norm_R}
-    fa = emcmp.compare(capi, cpp, ['R', 'H'], extra_norm=nrm)          # the property itself: C interface vs C++ interface
+    fa = emcmp.compare(capi, cpp, ['R', 'H', 'D'], extra_norm=nrm)          # the property itself: C interface vs C++ interface (D: calls of the lifecycle functions by kind)
     div = emcmp.compare(capi, model, ['R', 'H'], extra_norm=nrm)
     # bytes nobody wrote (a described component without create function and default value) are indeterminate: the model prints
     # them as '*'.  A C / C++ difference in such a cell is not a difference of behaviour: keep only those the model does not explain
     div_cpp = emcmp.compare(cpp, model, ['R', 'H'], extra_norm=nrm)
     unexplained = set((d['script'], d['opn'], d['tag']) for d in div + div_cpp)
-    fa = [f for f in fa if (f['script'], f['opn'], f['tag']) in unexplained]
+    fa = [f for f in fa if f['tag'] == 'D' or (f['script'], f['opn'], f['tag']) in unexplained]
     sd = dict(scripts)
     finals = set('\n'.join(b[-1]['tags'].get('H', [])) for n_, b in capi if b)
     cov.update({'evaluations': len(scripts), 'distinct_nontrivial': len(finals), 'ops': sum(len(v) for v in sd.values()),
